@@ -176,6 +176,10 @@ pub fn run_oligo(c: &OFCase, work: &str, uid: &str) -> RunOut {
     let mmap = c.path == "mmap";
     if let Some(m) = c.path.strip_prefix("batch:") {
         oc.set_max_memory(m.parse().unwrap_or(4 << 30));
+    } else if stale_case(&format!("mem {}", c.req())) {
+        // the mapped writer has no use for the batch limit: setting a tiny one must not change anything
+        let lim = [1usize, 50, 100, 1000][(c.recs.len() + c.k) % 4];
+        oc.set_max_memory(lim);
     }
     install_sched(&c.sched);
     let result = catch(std::panic::AssertUnwindSafe(|| if mmap { oc.verif_vectorise_mmap() } else { oc.verif_vectorise_batch() }));
